@@ -64,6 +64,8 @@ PROPS = {
         "modules": [T + "C01"],
         "theorems": [(T + "C01.tables", T + "C01"),
                      (T + "C01.params_eq", T + "C01"),
+                     (T + "C01.generate_eq_spec", T + "C01"),
+                     (T + "C01.generate_chunked_eq_spec", T + "C01"),
                      (T + "C01.kat_lovak", T + "C01"),
                      ("TlshVerif.Ref.pearson_surjective", T + "C01"),
                      ("TlshVerif.Ref.pearson_length", T + "C01"),
